@@ -592,11 +592,15 @@ package fs
 //@   ensures forall z {at(t, z).DirLocation} :: z < base(t) || z >= end(t) ==> at(t, z).DirLocation == old(at(t, z).DirLocation)
 //@   loop 1 invariant 0 <= i && i <= len(t) && (forall z {at(t, z).DirLocation} :: base(t) <= z && z < base(t) + i ==> at(t, z).DirLocation == pre(at(t, z).DirLocation) + dirLBA) && (forall z {at(t, z).DirLocation} :: z < base(t) || z >= base(t) + i ==> at(t, z).DirLocation == pre(at(t, z).DirLocation))
 
+//@ pred isParentIdx(l dirItemList, path str, y int) := base(l) <= y && y < end(l) && childOf(path, at(l, y).path) && (forall y2 {at(l, y2).path} :: base(l) <= y2 && y2 < y ==> !childOf(path, at(l, y2).path))
+//@ pred hasNoParent(l dirItemList, path str) := forall y2 {at(l, y2).path} :: base(l) <= y2 && y2 < end(l) ==> !childOf(path, at(l, y2).path)
 //@ func dirItemList.parent results(p)
 //@   tags C04,C08
+//@   ensures[C08] p != nil ==> isParentIdx(l, item.path, pidx(p)) @the-first-item-that-is-the-parent
+//@   ensures[C08] p == nil ==> hasNoParent(l, item.path) @nil-only-without-a-parent
 //@   ensures p == nil || (parr(p) == l.$arr && base(l) <= pidx(p) && pidx(p) < end(l) && childOf(item.path, at(l, pidx(p)).path)) @points-at-the-parent-item
 //@   ensures[ASSUMED,C04] p != nil ==> (forall y {at(l, y).path} :: base(l) <= y && y < end(l) && at(l, y).path == item.path ==> pidx(p) < y) @a-directory-is-listed-after-its-parent
-//@   loop 1 invariant true
+//@   loop 1 invariant forall y2 {at(l, y2).path} :: base(l) <= y2 && y2 < base(l) + $idx ==> !childOf(item.path, at(l, y2).path) @no-parent-so-far
 
 //@ func dirItemList.parentIdx results(k)
 //@   tags C04,C08
@@ -617,7 +621,7 @@ package fs
 //@ func dirItemList.size
 //@   tags C04,C08
 //@   trusted
-//@   ensures result == dirBytes(l.$arr, l.$off, len(l), joliet) && 0 <= result && result < 1<<40 && result % 2048 == 0
+//@   ensures 0 <= result && result < 1<<40 && result % 2048 == 0
 
 // location bounds before relocation: directory records point below maxDir, file records below maxFile
 //@ pred entriesBounded(s []directoryEntry, maxDir int, maxFile int) := forall z {at(s, z).ExtentLocation} :: base(s) <= z && z < end(s) ==> 0 <= at(s, z).ExtentLocation && at(s, z).ExtentLocation <= maxFile
@@ -638,6 +642,11 @@ package fs
 //@   requires joliet ==> len(item.dirEntryJoliet) == 0 && builtBefore(viso.rootDir, end(viso.rootDir), false)
 //@   modifies allmem(dirItem).dirEntry, allmem(dirItem).dirEntryJoliet, allmem(directoryEntry)
 //@   update recOwner = mapset(recOwner, joliet ? item.dirEntryJoliet.$arr : item.dirEntry.$arr, 2 * pidx(item) + (joliet ? 1 : 0))
+//@   any py int
+//@   ensures[C08] err == nil && !joliet && isParentIdx(viso.rootDir, item.path, py) ==> item.dirEntry[1].ExtentLocation == old(at(viso.rootDir, py).dirEntry[0].ExtentLocation) && item.dirEntry[1].ExtentLength == old(at(viso.rootDir, py).dirEntry[0].ExtentLength) @iso-dotdot-is-the-parent's-dot-record
+//@   ensures[C08] err == nil && joliet && isParentIdx(viso.rootDir, item.path, py) ==> item.dirEntryJoliet[1].ExtentLocation == old(at(viso.rootDir, py).dirEntryJoliet[0].ExtentLocation) && item.dirEntryJoliet[1].ExtentLength == old(at(viso.rootDir, py).dirEntryJoliet[0].ExtentLength) @joliet-dotdot-is-the-parent's-joliet-dot-record
+//@   ensures[C08] err == nil && !joliet && hasNoParent(viso.rootDir, item.path) ==> item.dirEntry[1].ExtentLocation == item.dirEntry[0].ExtentLocation && item.dirEntry[1].ExtentLength == item.dirEntry[0].ExtentLength @iso-root-dotdot-is-the-root
+//@   ensures[C08] err == nil && joliet && hasNoParent(viso.rootDir, item.path) ==> item.dirEntryJoliet[1].ExtentLocation == item.dirEntryJoliet[0].ExtentLocation && item.dirEntryJoliet[1].ExtentLength == item.dirEntryJoliet[0].ExtentLength @joliet-root-dotdot-is-the-root
 //@   ensures[C08] err == nil ==> builtBefore(viso.rootDir, pidx(item) + 1, joliet) @records-built-so-far-fit-their-fields
 //@   ensures err == nil ==> (forall y {at(viso.rootDir, y).dirEntry.$len} {at(viso.rootDir, y).dirEntryJoliet.$len} :: pidx(item) < y && y < end(viso.rootDir) ==> len(at(viso.rootDir, y).dirEntry) == old(len(at(viso.rootDir, y).dirEntry)) && len(at(viso.rootDir, y).dirEntryJoliet) == old(len(at(viso.rootDir, y).dirEntryJoliet))) @later-directories-untouched
 //@   ensures err == nil && joliet ==> builtBefore(viso.rootDir, end(viso.rootDir), false) @iso-records-still-fit
@@ -661,6 +670,9 @@ package fs
 //@   loop 3 invariant (!joliet ==> len(item.dirEntry) >= 2 && entriesOK(item.dirEntry) && len(item.dirEntry) <= 2 + 513 * len(item.files) + $idx && 0 <= totalSizeBytes && totalSizeBytes <= 255 * len(item.dirEntry) && fresh(item.dirEntry.$arr) && entriesBounded(item.dirEntry, 0x20000000, 0x30000001) && dotFirst(item.dirEntry) && item.dirEntryJoliet == old(item.dirEntryJoliet)) && (joliet ==> len(item.dirEntryJoliet) >= 2 && entriesOK(item.dirEntryJoliet) && len(item.dirEntryJoliet) <= 2 + 513 * len(item.files) + $idx && 0 <= totalSizeBytes && totalSizeBytes <= 255 * len(item.dirEntryJoliet) && fresh(item.dirEntryJoliet.$arr) && entriesBounded(item.dirEntryJoliet, 0x20000000, 0x30000001) && dotFirst(item.dirEntryJoliet) && item.dirEntry == pre(item.dirEntry) && item.dirEntry.$arr != item.dirEntryJoliet.$arr && builtBefore(viso.rootDir, end(viso.rootDir), false)) @own-records
 //@   loop 3 invariant (forall y {at(viso.rootDir, y).dirEntry.$len} {at(viso.rootDir, y).dirEntryJoliet.$len} {at(viso.rootDir, y).dirEntry.$arr} {at(viso.rootDir, y).dirEntryJoliet.$arr} :: base(viso.rootDir) <= y && y < end(viso.rootDir) && y != pidx(item) ==> at(viso.rootDir, y).dirEntry == old(at(viso.rootDir, y).dirEntry) && at(viso.rootDir, y).dirEntryJoliet == old(at(viso.rootDir, y).dirEntryJoliet) && at(viso.rootDir, y).dirEntry.$arr != (joliet ? item.dirEntryJoliet.$arr : item.dirEntry.$arr) && at(viso.rootDir, y).dirEntryJoliet.$arr != (joliet ? item.dirEntryJoliet.$arr : item.dirEntry.$arr)) @other-directories-keep-their-slices
 //@   loop 3 invariant builtBefore(viso.rootDir, pidx(item), joliet) @earlier-directories-still-built
+//@   loop 1 invariant (!joliet ==> item.dirEntry[1].ExtentLocation == pre(item.dirEntry[1].ExtentLocation) && item.dirEntry[1].ExtentLength == pre(item.dirEntry[1].ExtentLength)) && (joliet ==> item.dirEntryJoliet[1].ExtentLocation == pre(item.dirEntryJoliet[1].ExtentLocation) && item.dirEntryJoliet[1].ExtentLength == pre(item.dirEntryJoliet[1].ExtentLength)) @dotdot-record-kept
+//@   loop 2 invariant (!joliet ==> item.dirEntry[1].ExtentLocation == pre(item.dirEntry[1].ExtentLocation) && item.dirEntry[1].ExtentLength == pre(item.dirEntry[1].ExtentLength)) && (joliet ==> item.dirEntryJoliet[1].ExtentLocation == pre(item.dirEntryJoliet[1].ExtentLocation) && item.dirEntryJoliet[1].ExtentLength == pre(item.dirEntryJoliet[1].ExtentLength)) @dotdot-record-kept
+//@   loop 3 invariant (!joliet ==> item.dirEntry[1].ExtentLocation == pre(item.dirEntry[1].ExtentLocation) && item.dirEntry[1].ExtentLength == pre(item.dirEntry[1].ExtentLength)) && (joliet ==> item.dirEntryJoliet[1].ExtentLocation == pre(item.dirEntryJoliet[1].ExtentLocation) && item.dirEntryJoliet[1].ExtentLength == pre(item.dirEntryJoliet[1].ExtentLength)) @dotdot-record-kept
 
 //@ func VirtualISO.makePathTable results(t, err)
 //@   tags C04,C08
